@@ -1,6 +1,7 @@
 package e4
 
 import (
+	"context"
 	"encoding/json"
 	"fmt"
 	"os"
@@ -313,19 +314,19 @@ func scenarios() []*Scenario {
 	// (6) replicated state
 	batch := remoteBatch()
 	out = append(out, &Scenario{
-		Name: "distributed: subs.Create(s1,m/a) || MergeRemoteState(batch) || ByPattern(m/a);DeleteSession(r1)",
+		Name: "distributed: subs.Create(s1,m/a) || MergeRemoteState(batch) || DeleteSession(r1);ByPattern(m/a)",
 		New:  func() any { return newDsys() },
 		Threads: [][]Op{
 			{{"Create(s1,m/a)", func(s any) string { return errs(s.(*dsys).st.Subscriptions().Create("s1", []byte("m/a"), 0)) }}},
 			{{"Merge(batch)", func(s any) string { s.(*dsys).st.Distributor().MergeRemoteState(batch, false); return "" }}},
-			{{"ByPattern(m/a)", func(s any) string {
-				var r []string
-				for _, x := range s.(*dsys).st.Subscriptions().ByPattern([]byte("m/a")) {
-					r = append(r, x.SessionID)
-				}
-				return sortedJoin(r)
-			}},
-				{"DeleteSession(r1)", func(s any) string { s.(*dsys).st.Subscriptions().DeleteSession("r1"); return "" }}},
+			{{"DeleteSession(r1)", func(s any) string { s.(*dsys).st.Subscriptions().DeleteSession("r1"); return "" }},
+				{"ByPattern(m/a)", func(s any) string {
+					var r []string
+					for _, x := range s.(*dsys).st.Subscriptions().ByPattern([]byte("m/a")) {
+						r = append(r, x.SessionID)
+					}
+					return sortedJoin(r)
+				}}},
 		},
 		// what a later lookup resolves is part of the observation (a cached route must not outlive a change)
 		Observe: func(s any) string {
@@ -499,6 +500,55 @@ func scenarios() []*Scenario {
 		},
 		RaceOnly: true,
 	})
+	// (9) one message fanned out to two QoS 1 recipients while their acknowledgements arrive
+	out = append(out, &Scenario{
+		Name: "writer: deliver(m -> s1,s2 at QoS 1) || Ack(s1) || Ack(s2);deliver(n -> s1)",
+		New: func() any {
+			ws := &writerSys{local: wasp.NewState(1), q: ack.NewQueue(), conns: map[string]*sinkConn{}}
+			ws.w = wasp.VerifNewWriter(1, nil, ws.local, ws.q, 1, 4)
+			for _, id := range []string{"s1", "s2"} {
+				ws.conns[id] = &sinkConn{}
+				sess, _ := sessions.NewSession(id, "m", "tcp", ws.conns[id], &packet.Connect{Header: &packet.Header{}, ClientId: []byte(id), KeepaliveTimer: 60})
+				ws.local.Create(id, sess)
+			}
+			return ws
+		},
+		Threads: [][]Op{
+			{{"deliver(m)", func(s any) string {
+				ws := s.(*writerSys)
+				wasp.VerifWriterDeliver(context.Background(), ws.w, []string{"s1", "s2"}, []int32{1, 1}, &packet.Publish{Header: &packet.Header{}, Topic: []byte("m/t"), Payload: []byte("m")})
+				return ""
+			}}},
+			// a fan-out is not one atomic step and need not be: the acknowledgements' own results are not part of
+			// the outcome, only what is left when everything has been acknowledged
+			{{"Ack(s1,last)", func(s any) string { s.(*writerSys).ackLast("s1"); return "" }}},
+			{{"Ack(s2,last)", func(s any) string { s.(*writerSys).ackLast("s2"); return "" }},
+				{"deliver(n)", func(s any) string {
+					ws := s.(*writerSys)
+					wasp.VerifWriterDeliver(context.Background(), ws.w, []string{"s1"}, []int32{1}, &packet.Publish{Header: &packet.Header{}, Topic: []byte("m/t"), Payload: []byte("n")})
+					return ""
+				}}},
+		},
+		// after acknowledging whatever is still in flight every identifier must be free again
+		Observe: func(s any) string {
+			ws := s.(*writerSys)
+			for id := int32(1); id <= 4; id++ {
+				ws.q.Ack("s1", puback(id))
+				ws.q.Ack("s2", puback(id))
+			}
+			pool := wasp.VerifWriterPool(ws.w)
+			var free []string
+			for i := 0; i < 6; i++ {
+				v := pool.Get()
+				if v < 1 || v > 4 {
+					break
+				}
+				free = append(free, fmt.Sprint(v))
+			}
+			return "free:" + sortedJoin(free)
+		},
+		SingleOutcome: true,
+	})
 	// (7) per-session filter list
 	out = append(out, &Scenario{
 		Name: "Session: AddTopic(a);AddTopic(b) || RemoveTopic(a) || GetTopics;AddTopic(c)",
@@ -514,6 +564,47 @@ func scenarios() []*Scenario {
 	})
 	return out
 }
+
+type writerSys struct {
+	w     wasp.Writer
+	local wasp.LocalState
+	q     ack.Queue
+	conns map[string]*sinkConn
+}
+
+// ackLast acknowledges the identifier of the last delivery written to that session ("none" if nothing was written yet).
+func (ws *writerSys) ackLast(session string) string {
+	id := ws.conns[session].last()
+	if id == 0 {
+		return "none"
+	}
+	return errs(ws.q.Ack(session, puback(id)))
+}
+
+// sinkConn swallows what the writer sends.
+type sinkConn struct {
+	mu     sync.Mutex
+	lastID int32
+}
+
+func (c *sinkConn) Read(b []byte) (int, error) { select {} }
+func (c *sinkConn) Write(b []byte) (int, error) {
+	// PUBLISH with a 1-byte remaining length (the scenario's packets are tiny): [hdr][len][tl hi][tl lo][topic][id hi][id lo]...
+	if len(b) > 6 && b[0]>>4 == 3 && (b[0]>>1)&3 > 0 {
+		tl := int(b[2])<<8 | int(b[3])
+		if 4+tl+2 <= len(b) {
+			c.mu.Lock()
+			c.lastID = int32(b[4+tl])<<8 | int32(b[4+tl+1])
+			c.mu.Unlock()
+		}
+	}
+	return len(b), nil
+}
+func (c *sinkConn) last() int32                      { c.mu.Lock(); defer c.mu.Unlock(); return c.lastID }
+func (c *sinkConn) Close() error                     { return nil }
+func (c *sinkConn) SetDeadline(time.Time) error      { return nil }
+func (c *sinkConn) SetReadDeadline(time.Time) error  { return nil }
+func (c *sinkConn) SetWriteDeadline(time.Time) error { return nil }
 
 type logSys struct {
 	l   messages.Log
@@ -620,7 +711,11 @@ func TestC20Schedules(t *testing.T) {
 		rep.Extra["distinct_outcomes: "+sc.Name] = len(seen)
 		rep.States += int64(len(seen))
 		rep.Nontrivial += int64(len(seen))
-		rep.Floor("outcomes:"+strings.SplitN(sc.Name, ":", 2)[0]+fmt.Sprint(len(sc.Name)), 2, int64(len(seen)))
+		minOut := int64(2)
+		if sc.SingleOutcome {
+			minOut = 1
+		}
+		rep.Floor("outcomes:"+strings.SplitN(sc.Name, ":", 2)[0]+fmt.Sprint(len(sc.Name)), minOut, int64(len(seen)))
 	}
 	rep.Evaluations = totalExec
 	rep.Paths = totalExec
